@@ -22,6 +22,10 @@
                 consecutively whatever the other side does (Consecutive), there is exactly one
                 body-end event whatever the application calls afterwards (EndsOnce), and the
                 application gets exactly what the wrapped reader/writer returned (Transparent).
+                Events are only ever appended (OutGrows); under weak fairness every body is
+                finished, i.e. no iteration of the loop fails to consume (Terminates, FairSpec).
+                ConsultBit = FALSE is the mutant that decodes whatever the flag says: TLC must
+                (and does) reject it with Agrees - the theorem is not vacuous.
 
    Writer carrier: Read(k,"nil") = a Write of which k bytes were accepted, Read(k,"err") = a
    short/failing Write, Read(0,"eof") = the handler returns. *)
